@@ -241,7 +241,7 @@ async fn run(multi_thread: bool) {
                 None => json!({"ok": false, "kind": "harness", "err": "no such db"}),
             },
             "rule_names" => match sessions.get(&name) {
-                Some(s) => crate::planops::rule_names(&s.db),
+                Some(s) => crate::planops::rule_names(&s.db).await,
                 None => json!({"ok": false, "kind": "harness", "err": "no such db"}),
             },
             "tick" => {
